@@ -52,6 +52,21 @@ func budget(tier string) time.Duration {
 	return 150 * time.Second
 }
 
+// schedBudget: wall-clock cap of one scheduler layer (E2).  It is far above what
+// the layers need (a cut exploration is load-dependent coverage): it only stops
+// a run-away exploration, which is then reported as exhaustive:false.
+func schedBudget(tier string) time.Duration {
+	if s := os.Getenv("VERIF_BUDGET"); s != "" {
+		if d, err := time.ParseDuration(s); err == nil {
+			return d
+		}
+	}
+	if tier == "thorough" {
+		return 2 * time.Hour
+	}
+	return 20 * time.Minute
+}
+
 func TestCheck(t *testing.T) {
 	id := os.Getenv("VERIF_CHECK")
 	if id == "" {
